@@ -1,8 +1,8 @@
 #!/verif/.venv/bin/python
 # Replay of a solver counterexample against the unmodified code (no shims).
-# property=C10 kernel=step label=c10:phase_jump_gap
+# property=C10 kernel=eom label=c10:phase_jump_gap
 import sys
 sys.path[:0] = ['/repo' + "/pulser-core", '/repo' + "/pulser-simulation", "/verif"]
 from symx.replay import replay
-sys.exit(replay(check='checks.c10', kernel='step', shape={'own': {'clock': 4, 'local': True, 'slots': ['pulseA', 'target'], 'mod': False, 'pj': 'custom', 'targets_a': ['q0'], 'targets_b': ['q1']}, 'op': ['add_pulse', 'min-delay', 'B'], 'maxseq': False, 'nbarriers': 1},
-                assignment={'own.min_duration': 1, 'own.pjt': 77, 'own.min_retarget': 0, 'own.fixed_retarget': 1, 'own.s0.dur/k': 1, 'own.s1.dur/k': 1, 'new.dur/k': 1, 'barrier0': 77}, label='c10:phase_jump_gap'))
+sys.exit(replay(check='checks.c10', kernel='eom', shape={'own': {'clock': 1, 'local': False, 'slots': ['pulseA', 'delay'], 'mod': True, 'pj': 'custom', 'det_off': 0.0, 'eom': {'custom_buffer': False, 'blocks': [(0, None)]}}, 'op': ['add_pulse', 'min-delay', 'B'], 'maxseq': False, 'nbarriers': 1},
+                assignment={'own.min_duration': 2, 'own.tr': 2, 'own.pjt': 1, 'own.eom_tr': 2, 'own.s0.dur': 2, 'own.s1.dur': 5, 'new.dur': 2, 'barrier0': 8, 'buf#1.start': 0, 'buf#1.end': 0, 'buf#2.start': 0, 'buf#2.end': 0, 'buf#9.start': 0, 'buf#9.end': 2, 'buf#10.start': 0, 'buf#10.end': 0}, label='c10:phase_jump_gap'))
